@@ -8,7 +8,7 @@ use crate::{
 };
 use lsp_types::{
     DidChangeTextDocumentParams, DidChangeWatchedFilesParams, DidOpenTextDocumentParams,
-    DidSaveTextDocumentParams, FileChangeType, Url,
+    DidSaveTextDocumentParams, FileChangeType, TextDocumentContentChangeEvent, Url,
 };
 use std::{
     collections::BTreeMap,
@@ -27,6 +27,25 @@ pub async fn handle_did_open_text_document(
     // Get or create a session for the original file URI.
     let (uri, session) = state.uri_and_session_from_workspace(&params.text_document.uri)?;
     state.documents.handle_open_file(&uri).await;
+
+    // From `didOpen` on the client's text is the truth. The server may still hold another text for
+    // this document: the unsaved changes of an earlier session that the client discarded when it
+    // closed the document, or the file's content on disk when the editor's buffer differs from it.
+    if state
+        .documents
+        .get_text_document(&uri)
+        .is_ok_and(|document| document.get_text() != params.text_document.text)
+    {
+        let client_text = TextDocumentContentChangeEvent {
+            range: None,
+            range_length: None,
+            text: params.text_document.text.clone(),
+        };
+        state
+            .documents
+            .write_changes_to_file(&uri, &[client_text])
+            .await?;
+    }
 
     // Mark the compilation as in progress *before* handing the request to the compilation thread. If the
     // flag were set afterwards, a compilation that has already finished would leave it set forever and
